@@ -18,7 +18,7 @@ import (
 var ghostBuiltins = map[string]bool{
 	"requires": true, "domain": true, "ensures": true, "ensuresGoal": true, "ensuresTrusted": true, "assert": true, "assume": true, "imp": true, "iff": true, "old": true,
 	"forall": true, "exists": true, "forallIn": true, "existsIn": true, "forallStr": true, "modifiesTail": true, "modifiesElems": true, "modifiesPtr": true, "modifiesAll": true, "modifiesMap": true,
-	"freshSlice": true, "sameBase": true, "sameArray": true, "suffixOf": true, "viewOf": true, "offsetIn": true, "disjointFromTail": true, "bytesEq": true, "strBytesEq": true, "allocated": true, "sameOrDisjoint": true, "unchangedElems": true, "identical": true, "arg": true, "localBool": true,
+	"freshSlice": true, "sameBase": true, "sameArray": true, "suffixOf": true, "viewOf": true, "offsetIn": true, "disjointFromTail": true, "bytesEq": true, "strBytesEq": true, "allocated": true, "sameOrDisjoint": true, "unchangedElems": true, "identical": true, "arg": true, "recv": true, "localBool": true,
 	"covers": true,
 }
 
@@ -1777,7 +1777,13 @@ func (c *VC) callSiteAsserts(st *State, call *ast.CallExpr) {
 	}
 	text := exprText(c.prog.fset, call.Fun)
 	for _, cs := range d.CallSites {
-		if cs.Callee != text {
+		if strings.HasPrefix(cs.Callee, "*.") {
+			// `callsite *.M: e`: every method call x.M(...), whatever the receiver expression
+			se, ok := ast.Unparen(call.Fun).(*ast.SelectorExpr)
+			if !ok || se.Sel.Name != cs.Callee[2:] {
+				continue
+			}
+		} else if cs.Callee != text {
 			continue
 		}
 		c.siteCall, c.siteState = call, st
